@@ -321,6 +321,45 @@ func c12Pass(c *core.Case, o *core.Outcome) {
 		o.AddObs("passthrough_sets", 1)
 		o.Sig("pass:%s:le100=%v", dist, interval <= 100*time.Millisecond)
 	}
+	// the random distribution with f1's own random source (nil) on the largest rates an int holds: integer arithmetic
+	// throughout, so each cycle still adds up exactly and nothing is negative
+	for _, rate := range []int{math.MaxInt64, math.MaxInt64 - 1, 1 << 62, 1, 0} {
+		for _, n := range []int{2, 3, 10} {
+			rate, n := rate, n
+			desc := fmt.Sprintf("random distribution, default source, N=%d rate=%d", n, rate)
+			_, fn, err := api.NewDistribution(api.RandomDistribution, time.Duration(n)*100*time.Millisecond, func(time.Time) int { return rate }, nil)
+			if err != nil {
+				o.Violate("random-extreme-error:"+desc, "NewDistribution failed: %v (%s)", err, desc)
+				return
+			}
+			bad := func() (msg string) {
+				defer func() {
+					if pv := recover(); pv != nil {
+						msg = fmt.Sprintf("panic: %v", pv)
+					}
+				}()
+				for cyc := 0; cyc < 3; cyc++ {
+					left := uint64(rate)
+					for k := 0; k < n; k++ {
+						v := fn(time.Unix(int64(cyc*n+k), 0))
+						if v < 0 || uint64(v) > left {
+							return fmt.Sprintf("cycle %d sub-tick %d requests %d with %d left of the cycle's %d", cyc, k, v, left, rate)
+						}
+						left -= uint64(v)
+					}
+					if left != 0 {
+						return fmt.Sprintf("cycle %d adds up to %d less than its %d", cyc, left, rate)
+					}
+				}
+				return ""
+			}()
+			if bad != "" {
+				o.Violate("random-extreme:"+desc, "%s (%s)", bad, desc)
+				return
+			}
+			o.Events += int64(3 * n)
+		}
+	}
 	// an unknown distribution name must be an error, not a silent pass-through
 	if _, _, err := api.NewDistribution("bogus", time.Second, func(time.Time) int { return 1 }, nil); err == nil {
 		o.Violate("pass-bogus", "unknown distribution name accepted")
